@@ -159,6 +159,24 @@ func (r *runReport) finish() int {
 		if fr.Err != "" {
 			ent["out_of_subset"] = fr.Err
 			stale = append(stale, fmt.Sprintf("UNDECIDED %s: %s", shortFnKey(fr.Key), fr.Err))
+			// the function had discharged obligations in the baseline and can no longer be verified at all
+			// (its contract does not apply to the changed code): those obligations are no longer discharged
+			var lost []string
+			pfx := shortFnKey(fr.Key) + "/"
+			for n := range baseSet {
+				if strings.HasPrefix(n, pfx) && !strings.Contains(n, "/vacuity:") {
+					lost = append(lost, n)
+					seen[n] = true
+				}
+			}
+			if len(lost) > 0 {
+				sort.Strings(lost)
+				o := &Obligation{Name: pfx + "contract:applies to the current code", Kind: "contract", Fn: fr.Key, Status: "unknown",
+					Raw: "the contract of " + shortFnKey(fr.Key) + " cannot be evaluated on the current code: " + fr.Err + "\nbaseline obligations no longer discharged:\n  " + strings.Join(lost, "\n  ")}
+				path, _ := r.writeReplay(o)
+				violations = append(violations, fmt.Sprintf("VIOLATION property=%s replay=%s no-failing-input-found", r.prop, path))
+				fmt.Printf("  baseline obligations no longer discharged: %d obligations of %s (%s)\n", len(lost), shortFnKey(fr.Key), fr.Err)
+			}
 		}
 		if len(fr.Inlined) > 0 {
 			sort.Strings(fr.Inlined)
